@@ -598,6 +598,13 @@ package cl
 //@   count-stores argPos
 //@   ensures consumes-one: $nstore_argPos == 1 && c.argPos == old(c.argPos) + 1
 
+// ~^ ends the enclosing iteration (or the whole control string) only when no
+// argument is left; with arguments left it does nothing.
+//@ func cl.(*control).readDir
+//@   property C15
+//@   requires sane-position: abs(c.argPos) < 1000000000
+//@   on-store stop up-and-out-only-without-arguments: len(c.args) <= c.argPos
+
 // ~[ consumes an argument only when it has no prefix parameter (or a : / @ modifier).
 //@ func cl.(*control).dirCond
 //@   property C15
